@@ -375,6 +375,18 @@ func genCases(thorough bool) []caseT {
 		cmd([]string{"delDest r1 0", "delDest r1 0"}, fmt.Sprintf("addRoute %s r1  10.0.0.1:2003  10.0.0.2:2003", typ))
 		cmd([]string{"delDest r1 5", "cmd modDest r1 5 prefix=x", "cmd modDest r1 0 regex=(", "cmd modDest r1 0 addr=10.0.0.9:2003", "cmd modRoute r1 regex=(", "cmd modRoute r1 prefix=a", "cmd delRoute r1", "cmd delRoute r1", "cmd modRoute r1 prefix=a"}, fmt.Sprintf("addRoute %s r1  10.0.0.1:2003", typ))
 	}
+	// every run-time change of a filter or an address, on every carbon route type (the admin
+	// interface reaches modRoute / modDest on whatever route the key names)
+	for _, typ := range []string{"sendAllMatch", "sendFirstMatch", "consistentHashing"} {
+		add := fmt.Sprintf("addRoute %s r1  10.0.0.1:2003  10.0.0.2:2003", typ)
+		for _, o := range []string{"prefix=a", "notPrefix=a", "sub=a", "notSub=a", "regex=^a", "notRegex=^a", "regex=(", "notRegex=(", "prefix=", "bogus=1", "addr=10.0.0.9:2003", "addr=10.0.0.9:2003 prefix=a", "addr=10.0.0.2:2003"} {
+			cmd([]string{"cmd modDest r1 0 " + o, "cmd modDest r1 1 " + o}, add)
+			if !strings.HasPrefix(o, "addr=") {
+				cmd([]string{"cmd modRoute r1 " + o}, add)
+			}
+		}
+		cmd([]string{"cmd modDest r1 2 prefix=a", "cmd modDest r1 -1 prefix=a", "cmd modDest r1 x prefix=a", "cmd modDest r1 0", "cmd modRoute r1"}, add)
+	}
 	// consistent hashing: down to zero destinations, then traffic
 	cmd([]string{"delDest ch 0", "delDest ch 0"}, "addRoute consistentHashing ch  10.0.0.1:2003  10.0.0.2:2003")
 	cmd([]string{"delDest ch 1", "delDest ch 0", "delDest ch 0"}, "addRoute consistentHashing ch  10.0.0.1:2003:a  10.0.0.1:2003:b")
